@@ -370,3 +370,21 @@ func concurrently(fs []func() string) []string {
 	wg.Wait()
 	return out
 }
+
+// negZeros writes some of the zero X/Y ordinates of a flat coordinate array as -0 (the same number),
+// in a quarter of the calls.
+func (r *Rng) negZeros(flat []float64, stride int) bool {
+	if stride < 2 || !r.chance(1, 4) {
+		return false
+	}
+	did := false
+	for i := 0; i+1 < len(flat); i += stride {
+		for k := 0; k < 2; k++ {
+			if flat[i+k] == 0 && r.chance(1, 2) {
+				flat[i+k] = math.Copysign(0, -1)
+				did = true
+			}
+		}
+	}
+	return did
+}
